@@ -199,6 +199,13 @@ func zzC05Boot(t testing.TB, dir string) (sys *zzC05Sys) {
 		t.Fatalf("setupDNSFilteringConf: %v", err)
 	}
 
+	// The real safe-browsing lookup service is unreachable offline: substitute
+	// a checker that blocks names containing "malware", so that the
+	// safe-browsing branch of the request path (block host given as a host
+	// name, resolved through the proxy) is exercised.
+	config.Filtering.SafeBrowsingChecker = zzC05Checker{}
+	config.Filtering.SafeBrowsingEnabled = true
+
 	if err = os.MkdirAll(globalContext.getDataDir(), 0o755); err != nil {
 		t.Fatalf("mkdir: %v", err)
 	}
@@ -246,6 +253,14 @@ func (sys *zzC05Sys) shutdown() {
 
 	sys.listSrv.Close()
 	_ = sys.upstream.Shutdown()
+}
+
+// zzC05Checker is a stand-in for the hash-prefix safe-browsing checker.
+type zzC05Checker struct{}
+
+// Check implements the [filtering.Checker] interface for zzC05Checker.
+func (zzC05Checker) Check(host string) (block bool, err error) {
+	return strings.Contains(host, "malware"), nil
 }
 
 // zzC05API performs one admin API call through the real mux.
@@ -518,7 +533,7 @@ func zzC05Families(sys *zzC05Sys) (fams map[string]func(rng *rand.Rand, i int)) 
 var zzC05Names = []string{
 	"plain.example", "listed.example", "sub.listed.example", "custom-blocked.example", "flip.example",
 	"rw0.example", "rw1.example", "access-blocked-0.example", "x.access-rule.example", "www.youtube.com",
-	"ignored0.example", "gen1.example", "Mixed.CASE.example", "dhcphost1.lan", "www.google.com",
+	"ignored0.example", "gen1.example", "malware.example", "sub.malware.example", "Mixed.CASE.example", "dhcphost1.lan", "www.google.com",
 }
 
 // TestZZVerifC05Stress runs every family named in VERIF_C05_FAMILIES (comma
